@@ -34,7 +34,9 @@ func (afs *osFS) OpenFile(path fs.RelPath, flag int, perms fs.Perms) (fs.File, e
 	// open(2) follows a symlink in the last segment unless O_CREAT|O_EXCL (or O_NOFOLLOW) is given -- O_EXCL
 	// alone is ignored; when it would, we have to resolve that link ourselves, or the kernel resolves it
 	// against the host root.
-	if flag&syscall.O_NOFOLLOW == 0 && flag&(os.O_CREATE|os.O_EXCL) != os.O_CREATE|os.O_EXCL {
+	// (... and with O_PATH the kernel ignores O_CREAT and O_EXCL altogether, and follows.)
+	const oPath = 0x200000 // O_PATH (linux)
+	if flag&syscall.O_NOFOLLOW == 0 && (flag&(os.O_CREATE|os.O_EXCL) != os.O_CREATE|os.O_EXCL || flag&oPath != 0) {
 		if _, isLink, _ := afs.readlink(rpath); isLink {
 			rpath, err = afs.realpath(path, true)
 			if err != nil {
